@@ -1354,3 +1354,120 @@ Proof.
     + intros r chs Hr. apply (mapM_Forall2 (enc m) (cc m)); [|assumption]. intros c ch [H _]. exact H.
     + apply Forall2_firstn. exact FR.
 Qed.
+
+Lemma store_from_nth colors c c' :
+  length colors = (NS * NS)%nat -> store_from c 0 colors = Ok c' ->
+  forall j, 0 <= j < NCELLS -> cell c' j = nth (Z.to_nat j) colors None.
+Proof.
+  intros Hl E j Hj. assert (Z.of_nat (length colors) = NCELLS) as HZ by (rewrite Hl; vm_compute; reflexivity).
+  destruct (store_from_ok colors c 0) as [c2 [E2 Hc]]; [lia|lia|]. rewrite E in E2. inversion E2; subst c2.
+  rewrite (Hc j) by lia. replace ((0 <=? j) && (j <? 0 + Z.of_nat (length colors))) with true by lia.
+  rewrite Z.sub_0_r. reflexivity.
+Qed.
+
+Lemma nth_nil {A} i (d : A) : nth i [] d = d.
+Proof. destruct i; reflexivity. Qed.
+
+Lemma nth_repeat' {A} (x d : A) n i : (i < n)%nat -> nth i (repeat x n) d = x.
+Proof. revert i; induction n; intros i Hi; [lia|]. destruct i; cbn [repeat nth]; [reflexivity|apply IHn; lia]. Qed.
+
+Lemma nth_firstn' {A} n i (l : list A) d : (i < n)%nat -> nth i (firstn n l) d = nth i l d.
+Proof.
+  revert i l; induction n; intros i l Hi; [lia|]. destruct l; cbn [firstn]; [reflexivity|].
+  destruct i; cbn [nth]; [reflexivity|apply IHn; lia].
+Qed.
+
+Lemma nth_pad {A} n i (l : list A) d : (i < n)%nat -> nth i (pad n d l) d = nth i l d.
+Proof.
+  intros Hi. unfold pad. rewrite nth_firstn' by assumption.
+  destruct (Nat.lt_ge_cases i (length l)).
+  - apply app_nth1. assumption.
+  - rewrite app_nth2 by assumption. rewrite (nth_overflow l) by assumption.
+    destruct (Nat.lt_ge_cases (i - length l) n); [apply nth_repeat'; assumption|].
+    apply nth_overflow. rewrite repeat_length. assumption.
+Qed.
+
+Lemma nth_concat_uniform {A} n (ll : list (list A)) d x y :
+  Forall (fun r => length r = n) ll -> (x < n)%nat ->
+  nth (x + y * n) (concat ll) d = nth x (nth y ll []) d.
+Proof.
+  intros H Hx. revert y. induction H as [|r ll Hr Hll IH]; intros y.
+  - cbn [concat]. rewrite !nth_nil. reflexivity.
+  - cbn [concat]. destruct y as [|y]; cbn [nth Nat.mul].
+    + rewrite Nat.add_0_r. apply app_nth1. lia.
+    + rewrite app_nth2 by lia. rewrite <- IH. f_equal. lia.
+Qed.
+
+Lemma nth_rows_padded pat j y :
+  (y < length pat + j)%nat ->
+  nth y (map (pad NS SPACE) pat ++ repeat (repeat SPACE NS) j) [] = pad NS SPACE (nth y pat []).
+Proof.
+  intros Hy. destruct (Nat.lt_ge_cases y (length pat)).
+  - rewrite app_nth1 by (rewrite map_length; assumption).
+    rewrite (nth_indep _ [] (pad NS SPACE [])) by (rewrite map_length; assumption). apply map_nth.
+  - rewrite app_nth2 by (rewrite map_length; assumption). rewrite map_length.
+    rewrite nth_repeat' by lia. rewrite (nth_overflow pat) by assumption.
+    unfold pad. cbn [app]. symmetry. apply firstn_all2. rewrite repeat_length. lia.
+Qed.
+
+(* C20 pattern_debug_roundtrip, direction from_pattern -> Debug, and the meaning of a pattern:
+   from_pattern accepts every well-formed pattern over the character set, the cell (x, y) holds the colour of the
+   character in row y, column x (None for ' ' and beyond the pattern), and Debug prints the pattern back *)
+Theorem pattern_then_debug m pat :
+  In m all_mappings -> pattern_wf m pat ->
+  exists d, from_pattern m pat = Ok d /\
+    debug_rows m d = Ok (normalise pat) /\
+    forall x y, 0 <= x < SIZE -> 0 <= y < SIZE ->
+      exists c, get_pixel d (P x y) = Ok c /\ cc m c (nth (Z.to_nat x) (nth (Z.to_nat y) pat []) SPACE).
+Proof.
+  intros Hm Hwf. destruct (pattern_then_debug_core m pat Hm Hwf) as [L [E [HL [F HD]]]].
+  destruct (store_from_cells_list L (PositiveMap.empty Z) HL) as [c' [Es Hc']].
+  rewrite Es in E. cbn [bind] in E. exists (D c' false false). split; [exact E|]. split.
+  - rewrite debug_rows_eq, empty_rows_eq, Hc'. exact HD.
+  - intros x y Hx Hy. rewrite get_pixel_gp. eexists. split; [reflexivity|].
+    assert (in_display (P x y)) as Hin by (unfold in_display; cbn [px py]; lia).
+    unfold gp. rewrite (proj2 (in_displayb_spec _) Hin). cbn [cells].
+    pose proof (idx_in_array _ Hin) as Ha. unfold in_array in Ha.
+    rewrite (store_from_nth L _ c' HL Es) by lia.
+    destruct Hwf as [Hh [[w [Hw Hrows]] Hv]].
+    assert (Z.to_nat (idx (P x y)) = Z.to_nat x + Z.to_nat y * NS)%nat as Ei.
+    { unfold idx; cbn [px py]. rewrite <- NS_SIZE. lia. }
+    rewrite Ei.
+    pose proof (Forall2_nth (cc m) _ _ None SPACE (Z.to_nat x + Z.to_nat y * NS) (cc_none_space m) F) as Hcc.
+    assert (Z.to_nat x < NS)%nat as Hxn by (rewrite <- NS_SIZE in Hx; lia).
+    assert (Z.to_nat y < NS)%nat as Hyn by (rewrite <- NS_SIZE in Hy; lia).
+    rewrite (nth_concat_uniform NS) in Hcc; [| |assumption].
+    + rewrite nth_rows_padded in Hcc by lia. rewrite nth_pad in Hcc by assumption. exact Hcc.
+    + apply Forall_app. split.
+      * apply Forall_forall. intros r Hr. apply in_map_iff in Hr. destruct Hr as [r0 [<- _]]. apply pad_length.
+      * apply Forall_forall. intros r Hr. apply repeat_spec in Hr. subst. apply repeat_length.
+Qed.
+
+(* both directions compose: a well-formed pattern, printed and parsed again, gives an equal display *)
+Corollary pattern_debug_pattern m pat d :
+  In m all_mappings -> pattern_wf m pat -> from_pattern m pat = Ok d ->
+  exists d', from_pattern m (normalise pat) = Ok d' /\ mock_eq d' d = true.
+Proof.
+  intros Hm Hwf E. destruct (pattern_then_debug m pat Hm Hwf) as [d0 [E0 [HD Hpix]]].
+  rewrite E in E0. inversion E0; subst d0.
+  assert (display_over m d) as Hover.
+  { intros p v Hp. rewrite get_pixel_gp in Hp. inversion Hp as [Hg].
+    assert (in_display p) as Hin.
+    { destruct (in_displayb p) eqn:Eb; [apply in_displayb_spec, Eb|]. unfold gp in Hg. rewrite Eb in Hg. discriminate. }
+    destruct p as [x y]. destruct (Hpix x y (proj1 Hin) (proj2 Hin)) as [c [Ec [_ Hc]]].
+    rewrite get_pixel_gp in Ec. inversion Ec as [Ec']. rewrite Hg in Ec'. subst c.
+    set (ch := nth (Z.to_nat x) (nth (Z.to_nat y) pat []) SPACE) in *.
+    assert (char_valid m ch) as Hcv.
+    { destruct Hwf as [_ [_ Hv]]. unfold ch.
+      destruct (Nat.lt_ge_cases (Z.to_nat y) (length pat)) as [Hy|Hy].
+      - assert (In (nth (Z.to_nat y) pat []) pat) as Hr by (apply nth_In; assumption).
+        rewrite Forall_forall in Hv. specialize (Hv _ Hr). rewrite Forall_forall in Hv.
+        destruct (Nat.lt_ge_cases (Z.to_nat x) (length (nth (Z.to_nat y) pat []))) as [Hx|Hx].
+        + apply Hv, nth_In, Hx.
+        + rewrite nth_overflow by assumption. left. reflexivity.
+      - rewrite (nth_overflow pat) by assumption. rewrite nth_nil. left. reflexivity. }
+    destruct (pattern_char_roundtrip m ch Hm Hcv) as [c2 [E2 [_ Hval]]]. rewrite Hc in E2. inversion E2; subst c2.
+    exact Hval. }
+  destruct (debug_then_pattern m d Hm Hover) as [rows [d' [E1 [_ [E2 E3]]]]].
+  rewrite HD in E1. inversion E1; subst rows. exists d'. auto.
+Qed.
